@@ -8,6 +8,16 @@ package integration_tests
 // (server Outbound) and a scripted traffic logger.  The verdict of the property is computed on what the
 // endpoints saw: bytes delivered vs bytes sent, LogTraffic totals vs bytes delivered, the dial error
 // message, and whether the client's QUIC connection is gone after a veto.
+// The client writes its first chunk in the same goroutine, immediately after TCP() returns: with fast open
+// that is before the server can have parsed the request, so the early payload reaches the server's stream
+// buffer together with / right behind the request (the situation a read-ahead in the request phase loses
+// bytes in).  Payloads are aperiodic, so a missing head cannot pass for a prefix.  If the target has not
+// received everything a few seconds after the client finished writing, the client closes its side (FIN behind
+// the data; the target has not sent anything and is not going to end, so the client is the side that finishes
+// first) and the run is judged on what the target holds once the server has torn the relay down: bytes that are
+// not a prefix of what was sent, or - the Up direction having ended on the client's EOF - fewer bytes than the
+// client wrote, are a verdict; a relay that is merely slow on an overloaded machine still delivers everything
+// ahead of the FIN.
 // Infrastructure trouble (no loopback, handshake timeout on an overloaded machine) is reported as
 // "skip", never as a verdict.
 
@@ -159,6 +169,19 @@ func (o *c06eOutbound) TCP(reqAddr string) (net.Conn, error) {
 func (o *c06eOutbound) UDP(reqAddr string) (server.UDPConn, error) { return nil, errors.New("no udp") }
 func (o *c06eOutbound) CheckUDP(reqAddr string) error              { return nil }
 
+// aperiodic deterministic payload (an xorshift stream seeded by a, b)
+func c06ePayload(a, b uint64, n int) []byte {
+	x := a*0x9e3779b97f4a7c15 + b*0xbf58476d1ce4e5b9 + 0x94d049bb133111eb
+	out := make([]byte, n)
+	for i := range out {
+		x ^= x << 13
+		x ^= x >> 7
+		x ^= x << 17
+		out[i] = byte(x >> 32)
+	}
+	return out
+}
+
 func c06eRun(c c06eCase, res map[string]any) {
 	skip := func(why string, err error) {
 		res["skip"] = fmt.Sprintf("%s: %v", why, err)
@@ -175,8 +198,8 @@ func c06eRun(c c06eCase, res map[string]any) {
 		skip("listen", err)
 		return
 	}
-	up := vGenData(c.Ua, c.Ub, c.UpN)
-	down := vGenData(c.Da, c.Db, c.DownN)
+	up := c06ePayload(c.Ua, c.Ub, c.UpN)
+	down := c06ePayload(c.Da, c.Db, c.DownN)
 	target := &c06eTarget{want: c.UpN, ready: make(chan struct{}), send: append([]byte(nil), down...), chunk: c.DownChk, closed: make(chan struct{})}
 	if c.UpN == 0 {
 		target.readyOne.Do(func() { close(target.ready) })
@@ -243,20 +266,60 @@ func c06eRun(c c06eCase, res map[string]any) {
 		skip("TCP()", err)
 		return
 	}
-	// client writes its bytes, then reads until the stream ends
+	// the client writes its first chunk at once (fast open: the server has not answered, possibly not even parsed
+	// the request yet), the rest from a goroutine, and reads until the stream ends
+	first := c.UpChunk
+	if first > len(up) {
+		first = len(up)
+	}
+	var werr error
+	if first > 0 {
+		_, werr = conn.Write(up[:first])
+	}
+	wroteAll := werr == nil
 	var wg sync.WaitGroup
 	wg.Add(1)
+	wdone := make(chan struct{})
 	go func() {
 		defer wg.Done()
-		for off := 0; off < len(up); off += c.UpChunk {
+		defer close(wdone)
+		if werr != nil {
+			return
+		}
+		for off := first; off < len(up); off += c.UpChunk {
 			end := off + c.UpChunk
 			if end > len(up) {
 				end = len(up)
 			}
 			if _, err := conn.Write(up[off:end]); err != nil {
+				wroteAll = false
 				return
 			}
 		}
+	}()
+	// once the client has written everything the target should soon hold it; if it does not, the client finishes
+	// (closes its side) so that the run ends and can be judged on what did arrive
+	stalled := make(chan bool, 1)
+	go func() {
+		<-wdone
+		deadline := time.Now().Add(4 * time.Second)
+		for time.Now().Before(deadline) {
+			target.mu.Lock()
+			n := target.got.Len()
+			target.mu.Unlock()
+			if n >= len(up) {
+				stalled <- false
+				return
+			}
+			select {
+			case <-target.closed:
+				stalled <- false
+				return
+			case <-time.After(10 * time.Millisecond):
+			}
+		}
+		conn.Close()
+		stalled <- true
 	}()
 	var recv bytes.Buffer
 	conn.SetReadDeadline(time.Now().Add(30 * time.Second))
@@ -272,15 +335,48 @@ func c06eRun(c c06eCase, res map[string]any) {
 	}
 	wg.Wait()
 	conn.Close()
-	if rerr != nil && isTimeout(rerr) {
-		skip("client read", rerr)
-		return
+	wasStalled := <-stalled
+	tornDown := false
+	if wasStalled {
+		select {
+		case <-target.closed:
+			tornDown = true
+		case <-time.After(8 * time.Second):
+		}
 	}
 	// let the server side finish its teardown
 	time.Sleep(300 * time.Millisecond)
 	target.mu.Lock()
 	got := append([]byte(nil), target.got.Bytes()...)
 	target.mu.Unlock()
+	res["stalled"] = wasStalled
+	// prefix clauses first: they hold at every moment of every run, whatever else went wrong
+	if len(got) > len(up) || !bytes.Equal(got, up[:len(got)]) {
+		res["got"] = len(got)
+		k := bytes.Index(up, got[:min(len(got), 32)])
+		fail("target received %d bytes that are not a prefix of the %d sent (fast open %v; what arrived starts at offset %d of what the client sent)", len(got), len(up), c.FastOpen, k)
+		return
+	}
+	if recv.Len() > len(down) || !bytes.Equal(recv.Bytes(), down[:recv.Len()]) {
+		fail("client received %d bytes that are not a prefix of the %d sent", recv.Len(), len(down))
+		return
+	}
+	if wasStalled {
+		logger.mu.Lock()
+		v := logger.vetoed
+		logger.mu.Unlock()
+		res["got"] = len(got)
+		if tornDown && wroteAll && !v && len(got) < len(up) {
+			fail("target received %d of the %d bytes the client wrote before it closed its side, the target never having ended (fast open %v): the relay ended on the client's EOF without delivering the whole stream", len(got), len(up), c.FastOpen)
+			return
+		}
+		skip("target", fmt.Errorf("held %d of %d bytes 4 s after the client had written everything", len(got), len(up)))
+		return
+	}
+	if rerr != nil && isTimeout(rerr) {
+		skip("client read", rerr)
+		return
+	}
 	logger.mu.Lock()
 	ltx, lrx, vetoed, vtx, vrx, bad := logger.tx, logger.rx, logger.vetoed, logger.vetoTx, logger.vetoRx, logger.badArgs
 	logger.mu.Unlock()
